@@ -52,10 +52,13 @@ pub fn run(ctx: &Ctx) {
         check_random(ctx, "single-bit-entropy", i, len, if inv { "one-bit-cleared" } else { "one-bit-set" }, e, None, false);
     });
     ctx.sweep("consecutive-generations", "two generations in a row on one stream of all-distinct bytes: the second phrase carries the bytes that follow those of the first", 5, |i| {
-        let len = [12usize, 15, 18, 21, 24][i as usize]; let e = len * 4 / 3; let stream: Vec<u8> = (1..=200u8).collect();
+        let len = [12usize, 15, 18, 21, 24][i as usize]; let e = len * 4 / 3; let stream: Vec<u8> = (1..=251u8).collect();
         let ((p1, p2), _, handed) = with_script(stream, None, false, || { let x = guard(|| Mnemonic::random(Language::English, len).map(|m| m.to_phrase()).ok()); let y = guard(|| Mnemonic::random(Language::English, len).map(|m| m.to_phrase()).ok()); (x, y) });
         ctx.eval("consecutive");
-        let ok = handed.len() >= 2 * e && p1 == Ok(Some(bip39::entropy_to_phrase(&handed[..e]))) && p2 == Ok(Some(bip39::entropy_to_phrase(&handed[handed.len() - e..]))) && handed[..e] != handed[handed.len() - e..];
+        // both entropies are runs of the handed-out bytes, the second strictly after the first (however the bytes were fetched)
+        let ent = |p: &Result<Option<String>, String>| p.as_ref().ok().and_then(|o| o.as_ref()).and_then(|ph| bip39::tokens_to_entropy(&ph.split(' ').collect::<Vec<_>>()).ok());
+        let find = |e: &[u8], from: usize| (from..handed.len().saturating_sub(e.len()) + 1).find(|k| handed[*k..*k + e.len()] == *e);
+        let ok = match (ent(&p1), ent(&p2)) { (Some(e1), Some(e2)) if e1.len() == e && e2.len() == e => match find(&e1, 0) { Some(k1) => find(&e2, k1 + e).is_some(), None => false }, _ => false };
         if !ok { ctx.violation(format!("{P}:random:len={len},consecutive:repeated-or-derived"), "two consecutive generations do not carry their own, consecutive bytes of the entropy source", json!({"sweep": "consecutive-generations", "index": i, "length": len})) }
     });
 }
